@@ -11,8 +11,19 @@ PRESETS_QUICK = [
     ("ARG", dict()),
     ("DJI", dict(ratio_stocks_untouched="baseline_no_stored_between_years")),
     ("USA", dict(scenario="no_resilient_foods", shutoff="continued", meat_strategy="baseline_breeding", NMONTHS=48)),
-    ("JPN", dict(scenario="seaweed", stored_food="zero", cull="dont_eat_culled")),
+    ("JPN", dict(scenario="seaweed", stored_food="zero", cull="dont_eat_culled", intake_constraints="disabled_for_humans")),
     ("IND", dict(scenario="industrial_foods", ratio_stocks_untouched="no_stored_between_years", shutoff="continued", stored_food="zero")),
+]
+
+# where a failing input is looked for after a tie broke: large stocks / herds / seaweed in every regime, short horizons
+PRESETS_SEARCH = [
+    ("USA", dict(ratio_stocks_untouched="baseline_no_stored_between_years", NMONTHS=48)),
+    ("ARG", dict(ratio_stocks_untouched="no_stored_between_years", NMONTHS=72, shutoff="continued")),
+    ("ARG", dict(NMONTHS=60)),
+    ("AUS", dict(scenario="seaweed", shutoff="continued", NMONTHS=60)),
+    ("CHN", dict(scenario="industrial_foods", meat_strategy="baseline_breeding", NMONTHS=60, intake_constraints="disabled_for_humans")),
+    ("IND", dict(scenario="relocated_crops", waste="zero", NMONTHS=48)),
+    ("GBR", dict(scenario="all_resilient_foods", NMONTHS=60, nutrition="baseline")),
 ]
 
 OPTION_SPACE = dict(
